@@ -1475,6 +1475,94 @@ impl<R: Read> Read for Base64Decoder<R> {
     }
 }
 
+/// Verification hooks (add-only, compiled only with feature `verif-hooks`)
+#[cfg(feature = "verif-hooks")]
+pub mod verif {
+    use super::*;
+
+    #[derive(Debug)]
+    struct NfaMatcher(NFA<usize>);
+
+    impl Matcher for NfaMatcher {
+        type Item = usize;
+
+        fn matcher(&self) -> Either<NFA<Void>, NFA<Self::Item>> {
+            Either::Right(self.0.clone())
+        }
+
+        fn decode(&self, _data: &[u8]) -> Option<Self::Item> {
+            None
+        }
+    }
+
+    /// Incremental tokeniser (the private `MatcherDecoder`) over caller supplied tagged NFAs
+    pub struct Tokeniser {
+        decoder: MatcherDecoder<usize>,
+    }
+
+    impl Tokeniser {
+        /// Each pattern must have its stop state tagged by the caller
+        pub fn new(patterns: Vec<NFA<usize>>) -> Self {
+            let automata = MatcherAutomata::new(
+                patterns
+                    .into_iter()
+                    .map(|nfa| Box::new(NfaMatcher(nfa)) as Box<dyn Matcher<Item = usize>>),
+            );
+            Self {
+                decoder: MatcherDecoder::new(automata),
+            }
+        }
+
+        /// Decode a single item from input, returns item (tag or rejected bytes) and
+        /// number of bytes consumed from the input
+        pub fn feed(
+            &mut self,
+            input: &[u8],
+        ) -> Result<(Option<Result<usize, Vec<u8>>>, usize), Error> {
+            let mut cursor = std::io::Cursor::new(input);
+            let item = self.decoder.decode(&mut cursor)?;
+            Ok((
+                item.map(|item| item.map_err(|raw| raw.into_vec())),
+                cursor.position() as usize,
+            ))
+        }
+
+        /// Number of bytes that were consumed from the input but not yet emitted
+        pub fn pending(&self) -> usize {
+            self.decoder.buffer.len() + self.decoder.rescheduled.len()
+        }
+    }
+
+    /// Production automata selector
+    #[derive(Debug, Clone, Copy, PartialEq, Eq)]
+    pub enum Automata {
+        Event,
+        Command,
+    }
+
+    /// Walk production DFA from the start state, for each prefix of the input
+    /// report `(is_accepting, is_terminal)` or `None` once there is no transition
+    pub fn accept_trace(automata: Automata, input: &[u8]) -> Vec<Option<(bool, bool)>> {
+        fn trace<T>(dfa: &DFA<T>, input: &[u8]) -> Vec<Option<(bool, bool)>> {
+            let mut state = Some(dfa.start());
+            input
+                .iter()
+                .map(|byte| {
+                    state = state.and_then(|state| dfa.transition(state, *byte));
+                    state.map(|state| {
+                        let info = dfa.info(state);
+                        (info.is_accepting, info.is_terminal)
+                    })
+                })
+                .collect()
+        }
+        match automata {
+            Automata::Event => trace(&TTY_EVENT_AUTOMATA.automata, input),
+            Automata::Command => trace(&TTY_COMMAND_AUTOMATA.automata, input),
+        }
+    }
+}
+
 #[cfg(test)]
 mod tests {
     use crate::{common::Rnd, encoder::Base64Encoder};
